@@ -1196,6 +1196,14 @@ def check_call(
         )
         raise GuppyTypeInferenceError(err)
 
+    # Unification may have solved variables in terms of each other, e.g. `?T := ?A` and
+    # `?A := bool`. Resolve the solutions against each other (this terminates thanks to
+    # the occurs check)
+    for _ in subst:
+        if all(t.unsolved_vars.isdisjoint(subst) for t in subst.values()):
+            break
+        subst = {v: t.substitute(subst) for v, t in subst.items()}
+
     # Success implies that the substitution is closed
     assert all(not t.unsolved_vars for t in subst.values())
     inst = check_all_solved(subst, free_vars, func_ty, node)
